@@ -39,6 +39,9 @@ class LoanManager:
 
         # Create the loan and update balances.
         loan = self._lending_strategy.create_loan(symbol, amount, self._ctx.dispatcher.now())
+        # This may fail, for example if there are no prices yet to calculate the interest, so it has to be done before
+        # making any changes.
+        loan_info = self._build_loan_info(loan)
         required_collateral = loan.calculate_collateral(self._ctx.prices)
         self._ctx.account_balances.update(
             balance_updates={loan.borrowed_symbol: loan.borrowed_amount},
@@ -50,7 +53,7 @@ class LoanManager:
         self._loans.add(loan)
         self._collateral_by_loan[loan.id] = ValueMap(required_collateral)
 
-        return self._build_loan_info(loan)
+        return loan_info
 
     def get_loans(
             self, borrowed_symbol: Optional[str] = None, is_open: Optional[bool] = None
